@@ -250,6 +250,41 @@ def mixed_pair_programs(rng, n):
     return progs
 
 
+def zero_weight_programs():
+    """Systematic: an equality/disequality in which some variable has net weight 0 (k*0, v - v, the same variable on both sides), followed or
+    preceded by a second constraint on that variable - the weightless variable must keep its whole domain."""
+    progs = []
+    firsts = [("kv+w+u?k", [0, 1, 2], [0, None]), ("kv+w?u", [0, 1, 2], [0]), ("v+w?v+k", [0, 1], [None]), ("v-v+w?k", [0, 1], [None]),
+              ("vk?k", [0], [0, 0]), ("kv?w+k", [0, 1], [0, None])]
+    seconds = [("lin", "v?k", [0], [0], False), ("lin", "v?k", [0], [2], True), ("lin", "v+w?k", [0, 2], [3], True), ("alldiff", [0, 1, 2]),
+               ("lin", "v?w", [0, 2], [], False)]
+    for (shape, idx, consts) in firsts:
+        for fill in (1, 2):
+            ks = [fill if c is None else c for c in consts]
+            for eq in (True, False):
+                for sec in seconds:
+                    for doms in ([(0, 3), (0, 2), (0, 2)], [(0, 2), (1, 2), (0, 3)]):
+                        c1 = ("lin", shape, idx, ks, eq)
+                        progs.append({"vars": doms, "cons": [c1, sec]})
+                        if fill == 1 and eq:
+                            progs.append({"vars": doms, "cons": [sec, c1]})
+    return progs
+
+
+def sum_programs():
+    """Systematic: sum_eq / sum_le / sum_ge with 1..5 terms over 0/1 and mixed domains, targets in the interior of the reachable range."""
+    progs = []
+    mixed = [(0, 2), (0, 1), (1, 3), (0, 1), (0, 2)]
+    for kind in ("eq", "le", "ge"):
+        for k in range(1, 6):
+            progs.append({"vars": [(0, 1)] * 5, "cons": [("sum", kind, list(range(k)), (k + 1) // 2)]})
+            progs.append({"vars": [(0, 1)] * 5, "cons": [("sum", kind, list(range(5 - k, 5)), max(1, k - 1))]})
+            progs.append({"vars": mixed, "cons": [("sum", kind, list(range(k)), sum(lo for lo, _ in mixed[:k]) + 2)]})
+            if k >= 3:
+                progs.append({"vars": mixed, "cons": [("sum", kind, [0] + list(range(k - 1)), 3)]})  # a repeated variable
+    return progs
+
+
 def chunks(lst, k):
     return [lst[i:i + k] for i in range(0, len(lst), k)]
 
